@@ -290,6 +290,31 @@ def main():
     return a, b, c
 ''', "main", inlined={"m.nest"})
 
+# 11 **kwargs handed on by a helper (with a `with` block and a function-valued argument)
+example('''
+import contextlib
+LOG = []
+@contextlib.contextmanager
+def opened(tag):
+    LOG.append(("open", tag))
+    yield tag.upper()
+    LOG.append(("close", tag))
+def target(fn, a=0, b=0, c=0):
+    LOG.append((fn, a, b, c))
+    return a + b + c
+def drive(run, tag, verbose, **settings):
+    with opened(tag) as h:
+        run(fn=h, a=verbose, **settings)
+def peek(**kw):
+    return sorted(kw)
+def main():
+    x = 5
+    drive(target, "t", 1, b=x, c=2)
+    drive(target, "u", 0)
+    p = peek(z=1, y=2)
+    return LOG, p
+''', "main", inlined={"m.drive"}, not_inlined={"m.peek"})
+
 
 def run(tree, entry):
     env = {}
